@@ -133,6 +133,13 @@ def clock_table(ctx: Ctx):
     for _ in range(ctx.n(300, 5000)):
         ts.append(ctx.rng.randrange(EPOCH, hi))
     out = [ns_of_filetime(t) for t in ts if t >= EPOCH]
+    # the clock counts nanoseconds, an interval boundary is a multiple of 100 ns: every residue class that matters inside one tick,
+    # for the ticks next to a boundary (the last 99 ns before a boundary still belong to the old interval)
+    sub = (1, 49, 50, 51, 99)
+    near = [t for t in ts if t >= EPOCH and (t % D2 in (0, 1, D2 - 1, D2 - 2))]
+    for t in near[:: (1 if ctx.thorough else 3)]:
+        for r in sub:
+            out.append(ns_of_filetime(t) + r)
     out.append(time.time_ns())
     return sorted(set(out))
 
